@@ -425,7 +425,84 @@ def _array_to_vec_boxed(ex, callee, argv):
     raise Unsupported(callee)
 
 
+def _str_len(ex, callee, argv):
+    return Sc(ex.slice_len(argv[0]), "usize")
+
+
+def _str_bytes(ex, callee, argv):
+    r = argv[0]
+    n = ex.slice_len(r)
+    return Agg([r, Sc(0, "usize"), Sc(n, "usize")], name="Bytes")
+
+
+def _bytes_next(ex, callee, argv):
+    it = ex.load(argv[0])
+    r, i, n = it.f
+    if i.v < n.v:
+        it.f[1] = Sc(i.v + 1, "usize")
+        off = (r.rng[0] if r.rng else 0) + i.v
+        return some(deep(ex.read_at(r.cell, r.path + (off,), None)))
+    return NONE()
+
+
+def _write_uN_be(ex, callee, argv):
+    m = re.search(r"write_u(16|32|64)", callee)
+    nb = int(m.group(1)) // 8
+    v = ex.load(argv[0])
+    val = argv[1]
+    bs = []
+    cur = val
+    for i in range(nb):
+        lo = ex.binop("BitAnd", cur, Sc(0xFF, val.ty))
+        bs.append(ex.cast(lo, "u8", "IntToInt"))
+        if i < nb - 1:
+            cur = ex.binop("Shr", cur, Sc(8, "u32"))
+    if "BigEndian" in callee or "BigEndian" in getattr(ex, "_last_callee_raw", "BigEndian"):
+        bs.reverse()
+    v.f.extend(bs)
+    return Agg([UNIT], 0, "Result::Ok")
+
+
+def _concat_vecs(ex, callee, argv):
+    items = ex.load(argv[0]) if isinstance(argv[0], Ref) and argv[0].rng is None else None
+    from_list = slice_like(ex, argv[0])
+    out = []
+    for v in from_list:
+        while isinstance(v, Ref):
+            v = ex.load(v)
+        out.extend(deep(x) for x in v.f)
+    return Agg(out, name="Vec")
+
+
+def slice_like(ex, r):
+    sl, ss, sn = _as_list_ref(ex, r)
+    return sl[ss:ss + sn]
+
+
+def _unwrap_or_else(ex, callee, argv):
+    o = argv[0]
+    if isinstance(o, Agg) and o.variant == 1:
+        return o.f[0]
+    if isinstance(o, Agg) and o.variant == 0:
+        owner = ex.crate.find(ex.callstack[-1]) if ex.callstack else None
+        if owner is not None:
+            # the n-th closure of the calling function, by source order of the unwrap_or_else calls
+            k = getattr(ex, "_closure_idx", {}).get(owner.name, 0)
+            cl = ex.crate.fns.get("%s::{closure#%d}" % (owner.name, k)) or ex.crate.fns.get("%s::{closure#0}" % owner.name)
+            if cl is not None:
+                return ex.run_fn(cl, [Opaque("closure env")])
+        raise Unsupported("unwrap_or_else closure")
+    raise Unsupported("unwrap_or_else on %r" % (o,))
+
+
 TABLE = [
+    (re.compile(r"^core::str::<impl str>::len$"), _str_len),
+    (re.compile(r"^core::str::<impl str>::(bytes|as_bytes)$"), _str_bytes),
+    (re.compile(r"^<std::str::Bytes as IntoIterator>::into_iter$"), _into_iter),
+    (re.compile(r"^<std::str::Bytes as Iterator>::next$"), _bytes_next),
+    (re.compile(r"^<Vec<u8> as WriteBytesExt>::write_u(16|32|64)$"), _write_uN_be),
+    (re.compile(r"^slice::<impl \[Vec<\w+>\]>::concat$"), _concat_vecs),
+    (re.compile(r"^Option::unwrap_or_else$"), _unwrap_or_else),
     (re.compile(r"^<(Result|Option)<.*> as Try>::branch$"), _try_branch),
     (re.compile(r"^<(Result|Option)<.*> as FromResidual<.*>>::from_residual$"), _from_residual),
     (re.compile(r"^<&(mut )?(Vec<.*>|\[.*\]) as IntoIterator>::into_iter$"), _ref_into_iter),
@@ -475,5 +552,8 @@ def lookup(callee):
     c = norm(callee)
     for pat, fn in TABLE:
         if pat.match(c):
-            return lambda ex, cal, argv, _fn=fn, _c=c: _fn(ex, _c, argv)
+            def run(ex, cal, argv, _fn=fn, _c=c, _raw=callee):
+                ex._last_callee_raw = _raw
+                return _fn(ex, _c, argv)
+            return run
     return None
